@@ -53,7 +53,12 @@ def gen_ascii(rng, maxlen=8):
 
 
 def gen_text(rng, maxlen=8):
-    """valid UTF-8 text; ~half the time contains non-ASCII characters"""
+    """valid UTF-8 text; ~half the time contains non-ASCII characters; one in sixteen has a length on a
+    boundary an implementation might treat specially (inline storage, interning, SIMD chunks)"""
+    if maxlen >= 4 and rng.chance(1, 16):
+        n = rng.choice([15, 16, 17, 31, 32, 33, 63, 64, 65, 127, 128, 129])
+        unit = rng.choice(["a", "ab", "\u00e9", "a\u20ac", ",a"])
+        return (unit * n)[:n]
     if rng.chance(1, 2):
         return gen_ascii(rng, maxlen)
     return "".join(rng.choice(NONASCII_ALPHA) for _ in range(rng.below(maxlen + 1)))
